@@ -507,9 +507,76 @@ fn elf(req: &Value) -> R<Value> {
     }))
 }
 
+/// graph: run one real graph-library algorithm on a concrete graph (replay / validation for C11)
+fn graph(req: &Value) -> R<Value> {
+    use falcon::graph::{Graph, NullEdge, NullVertex};
+    let mut g: Graph<NullVertex, NullEdge> = Graph::new();
+    for v in req["vertices"].as_array().ok_or("vertices")? {
+        g.insert_vertex(NullVertex::new(v.as_u64().ok_or("vertex")? as usize)).map_err(|e| e.to_string())?;
+    }
+    for e in req["edges"].as_array().ok_or("edges")? {
+        g.insert_edge(NullEdge::new(e[0].as_u64().ok_or("h")? as usize, e[1].as_u64().ok_or("t")? as usize)).map_err(|e| e.to_string())?;
+    }
+    if let Some(ops) = req["edit"].as_array() {
+        for op in ops {
+            let r = match op[0].as_str().ok_or("op")? {
+                "insert_vertex" => g.insert_vertex(NullVertex::new(op[1].as_u64().ok_or("v")? as usize)),
+                "insert_edge" => g.insert_edge(NullEdge::new(op[1].as_u64().ok_or("h")? as usize, op[2].as_u64().ok_or("t")? as usize)),
+                "remove_vertex" => g.remove_vertex(op[1].as_u64().ok_or("v")? as usize),
+                "remove_edge" => g.remove_edge(op[1].as_u64().ok_or("h")? as usize, op[2].as_u64().ok_or("t")? as usize),
+                _ => return Err("unknown edit".into()),
+            };
+            let _ = r;
+        }
+    }
+    let root = req["root"].as_u64().unwrap_or(0) as usize;
+    let alg = req["alg"].as_str().ok_or("alg")?;
+        let gedges = |t: &Graph<NullVertex, NullEdge>| -> Value {
+        let mut v: Vec<(usize, usize)> = t.edges().iter().map(|e| { use falcon::graph::Edge; (e.head(), e.tail()) }).collect();
+        v.sort();
+        let mut vs: Vec<usize> = t.vertices().iter().map(|x| { use falcon::graph::Vertex; x.index() }).collect();
+        vs.sort();
+        json!({"vertices": vs, "edges": v})
+    };
+    let mapset = |m: std::collections::HashMap<usize, Vec<usize>>| -> Value {
+        let mut ks: Vec<_> = m.into_iter().map(|(k, mut v)| { v.sort(); (k, v) }).collect();
+        ks.sort();
+        json!(ks)
+    };
+    let err = |e: falcon::Error| json!({"error": e.to_string()});
+    let out = match alg {
+        "idom" => match g.compute_immediate_dominators(root) { Ok(m) => { let mut v: Vec<(usize, usize)> = m.into_iter().collect(); v.sort(); json!(v) } Err(e) => err(e) },
+        "dominators" => match g.compute_dominators(root) { Ok(m) => mapset(m.into_iter().map(|(k, s)| (k, s.into_iter().collect())).collect()), Err(e) => err(e) },
+        "frontiers" => match g.compute_dominance_frontiers(root) { Ok(m) => mapset(m.into_iter().map(|(k, s)| (k, s.into_iter().collect())).collect()), Err(e) => err(e) },
+        "predecessors" => match g.compute_predecessors() { Ok(m) => mapset(m.into_iter().map(|(k, s)| (k, s.into_iter().collect())).collect()), Err(e) => err(e) },
+        "dominator_tree" => match g.compute_dominator_tree(root) { Ok(t) => gedges(&t), Err(e) => err(e) },
+        "dfs_tree" => match g.compute_dfs_tree(root) { Ok(t) => gedges(&t), Err(e) => err(e) },
+        "acyclic" => match g.compute_acyclic(root) { Ok(t) => gedges(&t), Err(e) => err(e) },
+        "is_acyclic" => json!(g.is_acyclic(root)),
+        "is_reducible" => match g.is_reducible(root) { Ok(b) => json!(b), Err(e) => err(e) },
+        "pre_order" => match g.compute_pre_order(root) { Ok(v) => json!(v), Err(e) => err(e) },
+        "post_order" => match g.compute_post_order(root) { Ok(v) => json!(v), Err(e) => err(e) },
+        "topological" => match g.compute_topological_ordering() { Ok(v) => json!(v), Err(e) => err(e) },
+        "reachable" => match g.reachable_vertices(root) { Ok(s) => { let mut v: Vec<usize> = s.into_iter().collect(); v.sort(); json!(v) } Err(e) => err(e) },
+        "unreachable" => match g.unreachable_vertices(root) { Ok(s) => { let mut v: Vec<usize> = s.into_iter().collect(); v.sort(); json!(v) } Err(e) => err(e) },
+        "loops" => match g.compute_loops(root) { Ok(ls) => { let mut v: Vec<(usize, Vec<usize>)> = ls.iter().map(|l| (l.header(), l.nodes().iter().cloned().collect())).collect(); v.sort(); json!(v) } Err(e) => err(e) },
+        "views" => {
+            use falcon::graph::{Edge, Vertex};
+            let mut vs: Vec<usize> = g.vertices().iter().map(|x| x.index()).collect(); vs.sort();
+            let mut es: Vec<(usize, usize)> = g.edges().iter().map(|e| (e.head(), e.tail())).collect(); es.sort();
+            let succ: Vec<(usize, Vec<usize>)> = vs.iter().map(|&v| (v, g.successor_indices(v).unwrap_or_default())).collect();
+            let pred: Vec<(usize, Vec<usize>)> = vs.iter().map(|&v| (v, g.predecessor_indices(v).unwrap_or_default())).collect();
+            json!({"vertices": vs, "edges": es, "successors": succ, "predecessors": pred})
+        }
+        _ => return Err(format!("unknown alg {}", alg)),
+    };
+    Ok(json!({"ok": true, "result": out}))
+}
+
 pub fn dispatch(cmd: &str, req: &Value) -> R<Value> {
     match cmd {
         "scan" => scan(req),
+        "graph" => graph(req),
         "elf" => elf(req),
         _ => Err(format!("unknown cmd {}", cmd)),
     }
